@@ -196,9 +196,15 @@ def make_module(world_size=1):
     return pkg
 
 
-def run_ranks(P, fn, jitter=None, return_exceptions=False):
+class RanksTimeout(RuntimeError):
+    """the ranks did not finish within the wall-clock limit (deadlock or non-terminating loop)"""
+
+
+def run_ranks(P, fn, jitter=None, return_exceptions=False, timeout=None):
     """Run fn(rank) on P rank threads of a fresh world; returns [fn(0), ..., fn(P-1)].
-    If a rank raises: RankFailure (or, with return_exceptions, the exception object in its place)."""
+    If a rank raises: RankFailure (or, with return_exceptions, the exception object in its place).
+    timeout (seconds, whole world): on expiry the barrier is broken -- every rank that reaches its next
+    collective then fails -- and RanksTimeout is raised."""
     P = _default_world[0] if P is None else int(P)
     w = _World(P, jitter)
     results, errors = [None] * P, {}
@@ -221,11 +227,15 @@ def run_ranks(P, fn, jitter=None, return_exceptions=False):
         random.Random(jitter).shuffle(order)
     for i in order:
         threads[i].start()
+    deadline = time.time() + (timeout if timeout is not None else TIMEOUT * 4)
     for t in threads:
-        t.join(TIMEOUT * 4)
+        t.join(max(0.0, deadline - time.time()))
         if t.is_alive():
             w.barrier.abort()
-            raise RuntimeError("mpisim: rank thread did not finish")
+            for t2 in threads:
+                t2.join(5.0)
+            raise RanksTimeout("mpisim: ranks did not finish within %.0f s (deadlock or non-terminating loop)"
+                               % (timeout if timeout is not None else TIMEOUT * 4))
     if errors:
         if return_exceptions:
             return [errors.get(r, results[r]) for r in range(P)]
